@@ -424,6 +424,21 @@ def run(repo: Repo, rep, tier: str):
                    "`logging.getLogger(...)` logger stay in the logging module's registry - the reset of the logger service must detach "
                    "them, or later sessions keep writing into the log file of an earlier one; (c) the `hyperparameters` argument must "
                    "reach a strategy (which may update self.hp) only as a copy")
+    # (d) a mutable container bound to a CLASS attribute is one object for every instance of every session (`vars: dict = {}` in a
+    # class body instead of `self.vars = {}` in __init__)
+    for rel in sorted({r for r, _ in reach} | {"jesse/strategies/Strategy.py"}):
+        for cls_ in [c for c in ast.walk(repo.module(rel).tree) if isinstance(c, ast.ClassDef)]:
+            for b in cls_.body:
+                v = b.value if isinstance(b, ast.Assign) else (b.value if isinstance(b, ast.AnnAssign) else None)
+                if v is None:
+                    continue
+                names_ = [t.id for t in (b.targets if isinstance(b, ast.Assign) else [b.target]) if isinstance(t, ast.Name)]
+                mutable = isinstance(v, (ast.Dict, ast.List, ast.Set, ast.ListComp, ast.DictComp, ast.SetComp)) or \
+                    (isinstance(v, ast.Call) and isinstance(v.func, ast.Name) and v.func.id in ("dict", "list", "set", "defaultdict", "OrderedDict", "deque"))
+                if mutable and names_ and not names_[0].startswith("__") and names_[0] not in ("_fields_",):
+                    rep.violation(rid5, f"class-attribute|{rel}:{cls_.name}.{names_[0]}", f"{rel}: class {cls_.name} binds a mutable container to the class attribute `{names_[0]}` "
+                                  f"(`{norm(b)[:60]}`): every instance of every session shares it - what one session stores there is seen by the next")
+        rep.instance(rid5, f"class-attributes|{rel}")
     # (a)
     n5 = 0
     for rel in sorted({r for r, _ in reach}):
